@@ -404,6 +404,9 @@ var (
 	// a comment decoration becomes one ast.Comment in one group that is registered once, when it is created
 	reCommentsOnce = regexp.MustCompile(`(applyDecorations|addCommentField)#(comments:|ensures:(registered_at_slash|comments_prefix|empty_is_noop)$|call:.*:at_cursor@\d+$)`)
 	reObjNodeMaps  = regexp.MustCompile(`(decorateObject|decorateScope|restoreObject|restoreScope)#(ensures|loop\d+-(entry|preserve(\.\d+)?)):(maps|dst_map_grows|ast_map_grows|decl_node|data_node)$`)
+	// loop bookkeeping of the decorator's append-each loops and the call preconditions on the way in: nobody else's, so C11 discharges them
+	reDecorateAux  = regexp.MustCompile(`decorateNode/\w+#loop\d+-(entry|preserve(\.\d+)?):(foreach_(backing|count|old_rows)|frame_new)$|decorateNode/\w+#call:.*:not_yet_decorated@\d+$|\(\*decorator\.Decorator\)\.(DecorateNode|DecorateFile|ParseFile|Parse)#(call:.*:(maps|objects)@\d+|loop\d+-(entry|preserve(\.\d+)?):maps)$`)
+	reRestoreEntry = regexp.MustCompile(`(\.|\))(Fprint|Print|RestoreFile)#(call:.*(RestoreFile|Fprint):(restorer|maps|objects|ready)@\d+|ensures:(ready|maps_kept))$`)
 	reDup          = regexp.MustCompile(`#ensures:duplicates_rejected$|#maps:registered_before_recursion`)
 )
 
@@ -426,9 +429,13 @@ func init() {
 		Build: func(p *Program, tier string) ([]*Unit, []UnitError) {
 			us, es := restoreUnitsOf(p, tier, true)
 			us2, es2 := buildRestoreFile(p, tier)
-			return append(us, us2...), append(es, es2...)
+			// the public wrappers: they hand RestoreFile a restorer that meets its precondition
+			us3, es3 := buildFuncUnits(p, []string{pkgDecorator + ".(*Restorer).RestoreFile", pkgDecorator + ".(*Restorer).Fprint", fr("Fprint"), pkgDecorator + ".(*Restorer).Print", fr("Print"), pkgDecorator + ".RestoreFile", pkgDecorator + ".Fprint", pkgDecorator + ".Print"}, nil)
+			return append(append(us, us2...), us3...), append(append(es, es2...), es3...)
 		},
-		Select:   func(n string) bool { return rePosSpace.MatchString(n) || strings.Contains(n, "RestoreFile") },
+		Select: func(n string) bool {
+			return rePosSpace.MatchString(n) || strings.Contains(n, "RestoreFile") || reRestoreEntry.MatchString(n)
+		},
 		Siblings: "C03 (fields), C04 (tape), C06 (duplicates), C11 (maps)",
 		Assumptions: []string{
 			"token.FileSet.Base() >= 1 and AddFile at Base() never overlaps an earlier file (assumed contract of go/token)",
@@ -444,14 +451,15 @@ func init() {
 		Build: func(p *Program, tier string) ([]*Unit, []UnitError) {
 			us, es := restoreUnitsOf(p, tier, false)
 			us2, es2 := buildDecorateNode(p, tier)
-			us3, es3 := buildFuncUnits(p, []string{fd("decorateSelectorExpr"), pkgDecorator + ".mergeDecorations", fd("decorateObject"), fd("decorateScope"), fr("restoreObject"), fr("restoreScope")}, nil)
+			us3, es3 := buildFuncUnits(p, []string{fd("decorateSelectorExpr"), pkgDecorator + ".mergeDecorations", fd("decorateObject"), fd("decorateScope"), fr("restoreObject"), fr("restoreScope"),
+				pkgDecorator + ".(*Decorator).DecorateNode", pkgDecorator + ".(*Decorator).DecorateFile", pkgDecorator + ".(*Decorator).ParseFile", pkgDecorator + ".(*Decorator).Parse"}, nil)
 			return append(append(us, us2...), us3...), append(append(es, es2...), es3...)
 		},
 		Select: func(n string) bool {
 			return reMaps.MatchString(n) || strings.Contains(n, "#fields:") || strings.Contains(n, "#maps:registered_before_recursion") ||
 				strings.Contains(n, "decorateSelectorExpr#") || strings.Contains(n, "mergeDecorations#") ||
 				// the object/scope conversions reach the node maps through decorateNode: entries only grow, Decl/Data are map counterparts
-				reObjNodeMaps.MatchString(n)
+				reObjNodeMaps.MatchString(n) || reDecorateAux.MatchString(n)
 		},
 		Siblings: "C12 (position space), C04 (tape), C06 (duplicates)",
 		Assumptions: []string{
